@@ -100,16 +100,10 @@ func SelectD(arr, idx *Term) *Term {
 			switch cur.Op {
 			case "store":
 				si := cur.Args[1]
-				if si.Key() == idx.Key() {
+				if sameTerm(si, idx) {
 					return cur.Args[2]
 				}
-				decided := false
-				if si.IsConst() && idx.IsConst() {
-					decided = true
-				} else if d, ok := constDiff(si, idx); ok && d != 0 {
-					decided = true
-				}
-				if decided {
+				if definitelyDistinct(si, idx) {
 					orig = cur.Args[0]
 					cur = deref(cur.Args[0])
 					continue
